@@ -222,7 +222,6 @@ def make_callback(faults, dt):
 def e2e_run(case, observe=None, save_dir=None):
     """A real sequential run (floats, LP inside) of a built system with injected faults.
     `observe(ps, phase, info)` is called at phase boundaries (module attributes wrapped at run time)."""
-    import relsad.simulation.Simulation as simmod
     from relsad.simulation import Simulation
     from relsad.Time import Time, TimeStamp, TimeUnit
     spec = dict(case["spec"]); spec["exact"] = False
